@@ -1,0 +1,19 @@
+//go:build verif
+
+package engine
+
+import "github.com/google/go-intervals/intervalset"
+
+// VerifSets returns the spans recorded as changed and as unchanged, as the
+// interval sets hold them.
+func (c Changelog) VerifSets() (changed, unchanged []Interval) {
+	collect := func(s *intervalset.Set) (out []Interval) {
+		s.Intervals(func(i intervalset.Interval) bool {
+			sp := i.(*span)
+			out = append(out, Interval{Start: sp.Start, End: sp.End})
+			return true
+		})
+		return out
+	}
+	return collect(c.plus), collect(c.minus)
+}
